@@ -51,6 +51,7 @@ package filecache
 //@   ensures @gone !(old(entOf(elem).file.$name) in c.cache)
 //@   ensures @others forall n int :: n != old(entOf(elem).file.$name) ==> (n in c.cache) == old(n in c.cache) && c.cache[n] == old(c.cache[n])
 //@   ensures @closed-iff-unlent old(entOf(elem).file).$open == (c.$lent[old(entOf(elem).file)] > 0)
+//@   ensures @removed-map c.removed == old(c.removed) || fresh(c.removed)
 //@   assert at before call (*os.File).Close#0: @close-once entOf(elem).file.$open && c.$lent[entOf(elem).file] == 0
 
 //@ func (c *FileCache) removeOldest()  property C14 C16
@@ -61,6 +62,7 @@ package filecache
 //@   ensures @lent c.$lent == old(c.$lent)
 //@   ensures @len c.cache == old(c.cache) && c.ll == old(c.ll) && (c.ll != nil && old(c.ll.$len) > 0 ==> c.ll.$len == old(c.ll.$len) - 1) && (c.cache != nil ==> c.ll.$len == len(c.cache))
 //@   ensures @len-empty c.ll != nil && old(c.ll.$len) == 0 ==> c.ll.$len == 0
+//@   ensures @removed-map c.removed == old(c.removed) || fresh(c.removed)
 //@   ensures @open-kept forall f *os.File :: c.$lent[f] > 0 ==> f.$open
 
 //@ func (c *FileCache) Open(name string) (file *os.File, err error)  property C14 C16
@@ -101,6 +103,7 @@ package filecache
 //@   ensures @open-kept forall f *os.File :: c.$lent[f] > 0 ==> f.$open
 //@   loop 0 invariant c.cache == old(c.cache) && c.ll == old(c.ll) && c.capacity == old(c.capacity) && c.$lent == old(c.$lent) && held(c.lock)
 //@   loop 0 invariant @fc inv(c)
+//@   loop 0 invariant @removed-map c.removed == old(c.removed) || fresh(c.removed)
 //@   loop 0 invariant @visited-gone forall n int :: visited(n) ==> !(n in c.cache)
 
 //@ func (c *FileCache) SetCacheSize(capacity int)  property C14 C16
@@ -111,10 +114,12 @@ package filecache
 //@   ensures @open-kept forall f *os.File :: c.$lent[f] > 0 ==> f.$open
 //@   loop 0 invariant c.cache == old(c.cache) && c.ll == old(c.ll) && c.capacity == old(c.capacity) && c.$lent == old(c.$lent) && held(c.lock) && capacity == 0
 //@   loop 0 invariant @fc inv(c)
+//@   loop 0 invariant @removed-map c.removed == old(c.removed) || fresh(c.removed)
 //@   loop 0 invariant @visited-gone forall n int :: visited(n) ==> !(n in c.cache)
 //@   loop 1 invariant c.cache == old(c.cache) && c.ll == old(c.ll) && c.capacity == old(c.capacity) && c.$lent == old(c.$lent) && held(c.lock)
 //@   loop 1 invariant capacity > 0 && capacity <= i && capacity < c.capacity
 //@   loop 1 invariant @fc inv(c)
+//@   loop 1 invariant @removed-map c.removed == old(c.removed) || fresh(c.removed)
 //@   loop 1 invariant @progress c.cache != nil ==> c.ll.$len + (i - capacity) <= c.capacity
 
 //@ func (c *FileCache) Len() (n int)  property C14 C16
